@@ -152,6 +152,8 @@ pub struct Decision {
     pub clip: f64,
     /// The half space being clipped with: index of its right generator and periodic shift.
     pub plane: (Option<usize>, Option<DVec3>),
+    /// Triple product of the (unit) normals of the three planes of the vertex.
+    pub det: f64,
 }
 
 static TRACE: Mutex<Option<Vec<Decision>>> = Mutex::new(None);
@@ -176,6 +178,7 @@ pub(crate) fn trace_decision(
     exact_args: Option<[[i64; 3]; 5]>,
     clip: f64,
     plane: (Option<usize>, Option<DVec3>),
+    det: f64,
 ) {
     if let Ok(mut guard) = TRACE.lock() {
         if let Some(t) = guard.as_mut() {
@@ -186,6 +189,7 @@ pub(crate) fn trace_decision(
                 exact_args,
                 clip,
                 plane,
+                det,
             });
         }
     }
